@@ -116,10 +116,11 @@ type c18Env struct {
 	hostVal  map[string]object.Object
 	hostKind map[string]string // builtin | module | other
 	hostSet  map[string]bool
+	recNames bool // record vm.GlobalNames() after every piece (slot sessions)
 }
 
-func c18NewEnv(setsIP bool) *c18Env {
-	env := &c18Env{cfg: risor.NewConfig(), setsIP: setsIP, whole: map[string]*c18Obs{}, frags: map[string]string{},
+func c18NewEnv(setsIP bool, opts ...risor.Option) *c18Env {
+	env := &c18Env{cfg: risor.NewConfig(opts...), setsIP: setsIP, whole: map[string]*c18Obs{}, frags: map[string]string{},
 		hostVal: map[string]object.Object{}, hostKind: map[string]string{}, hostSet: map[string]bool{}}
 	g := env.cfg.Globals()
 	env.host = env.cfg.GlobalNames()
@@ -152,6 +153,8 @@ type c18Obs struct {
 	Globals map[string]string
 	Halt    int // vm.halt after the piece (-1: no VM yet)
 	Loaded  int // number of loaded code objects (main code + bound functions)
+	Mods    int // number of entries of the import cache (vm.modules)
+	GNames  []string // vm.GlobalNames(): the root symbol table in slot order (when env.recNames)
 }
 
 // c18Inspect never panics (a mutated tree may leave nil elements inside containers).
@@ -333,7 +336,10 @@ func (env *c18Env) incrementalCtx(pieces []string, names []string, globalsEvery 
 		o.SP, o.IP, o.Halt = -1, 0, -1
 		if v != nil {
 			st := v.VerifState()
-			o.SP, o.IP, o.Halt, o.Loaded = st.SP, st.IP, int(st.Halt), st.LoadedCode
+			o.SP, o.IP, o.Halt, o.Loaded, o.Mods = st.SP, st.IP, int(st.Halt), st.LoadedCode, st.Modules
+			if env.recNames {
+				o.GNames = v.GlobalNames()
+			}
 		}
 		if o.Class == "hang" {
 			out = append(out, o)
@@ -1118,7 +1124,15 @@ func c18_runC18(e *Env) {
 		"expression forms: the Call/Partial pattern of the real fragment against the Lean marks model, values/globals/stdout against the whole program); " +
 		"BINDING histories (random and enumerated sessions over integer globals and functions that read/write them: declarations in any piece, first calls in any later piece, " +
 		"top-level reads/writes in between: every piece's value, every global and the number of loaded code objects against the Lean generations model, values against its Spec " +
-		"and the real whole-program evaluation). After every piece every user global " +
+		"and the real whole-program evaluation); " +
+		"IMPORT sessions (a VM with an importer — LocalImporter over a temporary directory / FSImporter over an in-memory file system — and module files with " +
+		"mutable module-level state, a tick side effect and imports of each other: import under every spelling (`import m`, `import m as h`, `from m import …`), mutate " +
+		"through any handle, import the same module again in later pieces, read through every handle; enumerated sessions under every partition, random sessions with " +
+		"failing/rejected pieces in between; value, tick log, size of the import cache and integer globals after every piece against the Lean import-cache model and its Spec); " +
+		"SHADOWING sessions (top-level blocks — for headers, if/else, switch, range bodies, nested — that declare variables with the names of top-level variables; the harness " +
+		"resolves names to slots as the compiler does (checked against vm.GlobalNames after every piece) and sends the unrolled slot program to the Lean slot model; directed " +
+		"programs under every partition, random programs under sampled partitions; value and vm.Get of every name after every piece; host-supplied names declared inside blocks). " +
+		"After every piece every user global " +
 		"AND every host-supplied global (vm.Get) is compared with the whole-program evaluation. Distinct by the history text; non-trivial when the history has >= 2 pieces and the program " +
 		"uses >= 3 statement/expression forms beyond literals or nests >= 3 deep, and it gets past parsing"
 	setsIP, found := c18ReplSetsIP()
@@ -1311,6 +1325,8 @@ func c18_runC18(e *Env) {
 	c18Contexts(e, env)
 	c18Marks(e, env)
 	c18Binding(e, env)
+	c18Imports(e, setsIP)
+	c18Shadow(e, env)
 	// a violation inside the guard (nothing known explains it) is the most telling replay: list those first
 	sort.SliceStable(e.R.SpecViolations, func(i, j int) bool {
 		a, b := e.R.SpecViolations[i], e.R.SpecViolations[j]
